@@ -977,6 +977,17 @@ def random_block(ctx, col, pp, torch):
         ref = gen_cloud(rng, N1, D, 0, o) if rng.random() < 0.7 else [list(p) for p in rng.sample(nbr, min(N1, N2))]
         k = rng.choice([0, 1, 1, 2, 3, N2, N2 // 2, N2 + 1, rng.randint(0, N2)])
         add_knn(col, pp, torch, ref, nbr, k, o, batch=rng.choice([1, 1, 3]))
+    # ---- knn on clouds far from the origin relative to their spacing (world coordinates), small and large clouds:
+    #      distances must come from coordinate differences, whatever the absolute position (integer grid: exact)
+    for it in range(10 * m):
+        o, D = rng.choice(['L2', 'L2', 'L1', 'Linf']), rng.randint(1, 4)
+        N2 = rng.choice([3, 12, 26, 30, 48, 100])
+        N1 = rng.choice([1, 2, 5, 9])
+        off = [float(rng.choice([1, -1]) * rng.choice([2 ** 26, 5 * 10 ** 7, 2 ** 30])) for _ in range(D)]
+        nbr = [[float(rng.randint(-40, 40)) + off[j] for j in range(D)] for _ in range(N2)]
+        ref = [[float(rng.randint(-40, 40)) + off[j] for j in range(D)] for _ in range(N1)] if rng.random() < 0.5 else [list(q) for q in rng.sample(nbr, min(N1, N2))]
+        k = rng.choice([1, 1, 2, 3, N2])
+        add_knn(col, pp, torch, ref, nbr, k, o)
         if k <= N2 and rng.random() < 0.5:
             P2, idx = permuted(rng, nbr)
             add_knn(col, pp, torch, ref, P2, k, o)
